@@ -36,6 +36,20 @@ func NewReplayTape(p, s []int) *Tape {
 	return &Tape{Replay: true, P: append([]int(nil), p...), S: append([]int(nil), s...)}
 }
 
+// reserve gives the recorded streams a fixed capacity so that appends by different
+// goroutines never grow them (see the note on kernel memory in Sim).
+func (t *Tape) reserve() {
+	if !t.Replay {
+		if cap(t.P) < 1<<14 {
+			t.P = append(make([]int, 0, 1<<14), t.P...)
+		}
+		if cap(t.S) < 1<<17 {
+			t.S = append(make([]int, 0, 1<<17), t.S...)
+		}
+	}
+}
+
+//go:norace
 func next(state *uint64) uint64 {
 	*state += 0x9e3779b97f4a7c15
 	z := *state
@@ -45,6 +59,8 @@ func next(state *uint64) uint64 {
 }
 
 // Plan draws a plan value in [0,n).
+//
+//go:norace
 func (t *Tape) Plan(n int) int {
 	if n <= 1 {
 		return 0
@@ -80,10 +96,14 @@ func (t *Tape) PlanRange(lo, hi int) int {
 }
 
 // schedRaw returns 64 random bits from the schedule generator (search mode only).
+//
+//go:norace
 func (t *Tape) schedRaw() uint64 { return next(&t.rngS) }
 
 // Sched returns the next schedule value in [0,n): in replay mode the recorded one, in
 // search mode compute(raw) (policy-mapped) which is then recorded.
+//
+//go:norace
 func (t *Tape) Sched(n int, compute func(raw uint64) int) int {
 	if n <= 1 {
 		return 0
@@ -110,7 +130,9 @@ func (t *Tape) Sched(n int, compute func(raw uint64) int) int {
 	if v < 0 || v >= n {
 		v = 0
 	}
-	t.S = append(t.S, v)
+	if len(t.S) < cap(t.S) {
+		t.S = append(t.S, v)
+	}
 	return v
 }
 
